@@ -32,9 +32,10 @@ def sh(cmd, cwd=None, env=None, timeout=1800):
 def do_import():
     src_root = '/tmp/seedwork'
     for d in sorted(os.listdir(src_root)):
-        if not d.startswith('wt_'):
+        if not d.startswith(('wt_', 'w2_')):
             continue
         pid = d[3:]
+        off = 2 if d.startswith('w2_') else 0  # second seeding round: ids continue at -3
         sd = os.path.join(src_root, d, '_seed')
         if not os.path.isdir(sd):
             continue
@@ -44,7 +45,7 @@ def do_import():
             note = os.path.join(sd, f'note{k}.txt')
             if not (os.path.exists(diff) and os.path.exists(demo)):
                 continue
-            sid = f'{pid}-{k}'
+            sid = f'{pid}-{k + off}'
             dst = os.path.join(SEEDED, sid)
             if os.path.exists(os.path.join(dst, 'meta.json')):
                 continue
